@@ -98,6 +98,13 @@ inductive Entry where
   | visit               -- return Visitor().Visit(e);
   deriving DecidableEq, Repr
 
+/-- statements of `BasicExprFactory::Copy(src, dst)` after `s = src.data(); size = src.size();` -/
+inductive CopyStmt where
+  | returnIfSizeZero   -- if (size == 0) return;
+  | copyBytes          -- std::copy(s, s + size, dst);
+  | storeNulAtSize     -- dst[size] = 0;
+  deriving DecidableEq, Repr
+
 /-- normalised syntax tree (node kind, label, children) -/
 inductive Sx where
   | n (kind label : String) (ch : List Sx)
